@@ -42,10 +42,25 @@ pub assume_specification<T>[core::mem::replace::<T>](dest: &mut T, src: T) -> (r
 pub struct IsographSemanticToken(pub u8);
 #[derive(Clone, Copy, PartialEq, Eq, Structural)]
 pub struct TextSource(pub u32);
+#[verifier::external_body]
 pub struct Diagnostic { p: core::marker::PhantomData<u8> }
+impl Diagnostic {
+    /// `DiagnosticData::location`
+    pub uninterp spec fn loc(&self) -> Option<Location>;
+}
+/// C07 for diagnostics: the location a diagnostic carries (if it carries an embedded one) is
+/// a well-formed range of a literal that is n bytes long
+pub open spec fn diag_ok(d: Diagnostic, n: nat) -> bool {
+    match d.loc() {
+        Some(Location::Embedded(e)) => e.span.start <= e.span.end && e.span.end <= n,
+        _ => true,
+    }
+}
 pub type DiagnosticResult<T> = Result<T, Diagnostic>;
 #[verifier::external_body]
-pub fn parse_token_kind_diagnostic(expected: IsographLangTokenKind, found: IsographLangTokenKind, location: EmbeddedLocation) -> Diagnostic { unimplemented!() }
+pub fn parse_token_kind_diagnostic(expected: IsographLangTokenKind, found: IsographLangTokenKind, location: EmbeddedLocation) -> (r: Diagnostic)
+    ensures r.loc() == Some(Location::Embedded(location))
+{ unimplemented!() }
 /// isograph_lang_types::semantic_token_legend: the 29 token classes as opaque tags (their
 /// LSP fields play no role for spans)
 pub mod semantic_token_legend {
@@ -180,6 +195,7 @@ impl Span {
 #[derive(Copy, Clone, PartialEq, Eq, Structural)]
 pub struct EmbeddedLocation { pub text_source: TextSource, pub span: Span }
 impl EmbeddedLocation { pub fn new(text_source: TextSource, span: Span) -> (r: Self) ensures r.text_source == text_source, r.span == span { EmbeddedLocation { text_source, span } } }
+//@item rel=crates/common_lang_types/src/location.rs kind=enum name=Location prefix="#[derive(Copy, Clone, PartialEq, Eq, Structural)] pub"
 //@item rel=crates/common_lang_types/src/location.rs kind=struct name=WithGenericLocation prefix="#[derive(Copy, Clone)] pub"
 pub type WithEmbeddedLocation<TItem> = WithGenericLocation<TItem, EmbeddedLocation>;
 impl<T, TLocation> WithGenericLocation<T, TLocation> {
@@ -352,6 +368,7 @@ impl<'source> PeekableLexer<'source> {
                 && final(self).end_index_of_last_parsed_token == old(self).end_index_of_last_parsed_token, //@O C07.O-1_mismatch_does_not_advance
             final(self).same_literal(old(self)), final(self).monotone(old(self)),
             r is Ok ==> final(self).progressed(old(self)) && final(self).end_index_of_last_parsed_token == old(self).current.span.end,
+        r is Err ==> diag_ok(r->Err_0, byte_len(old(self).source)), //@O C07.O-7_diagnostic_location_inside_literal
 //@end
 
 //@fn rel=crates/isograph_lang_parser/src/peekable_lexer.rs name=parse_source_of_kind within="impl<'source> PeekableLexer<'source>" vis=pub ret=r serves=C07
@@ -370,6 +387,7 @@ impl<'source> PeekableLexer<'source> {
             r is Ok && expected_kind == IsographLangTokenKind::StringLiteral ==> byte_len(r->Ok_0.item) >= 2,
             r is Ok && expected_kind == IsographLangTokenKind::BlockStringLiteral ==> byte_len(r->Ok_0.item) >= 6,
             r is Err ==> final(self).not_moved(old(self)),
+        r is Err ==> diag_ok(r->Err_0, byte_len(old(self).source)), //@O C07.O-7_diagnostic_location_inside_literal
 //@end
 
 //@fn rel=crates/isograph_lang_parser/src/peekable_lexer.rs name=parse_string_key_type within="impl<'source> PeekableLexer<'source>" vis=pub ret=r serves=C07
@@ -384,6 +402,7 @@ impl<'source> PeekableLexer<'source> {
             r is Ok ==> final(self).progressed(old(self)) && r->Ok_0.location.span == old(self).current.span
                 && r->Ok_0.location.span.end <= byte_len(old(self).source), //@O C07.O-1_string_key_span_inside_literal
             r is Err ==> final(self).not_moved(old(self)),
+        r is Err ==> diag_ok(r->Err_0, byte_len(old(self).source)), //@O C07.O-7_diagnostic_location_inside_literal
 //@end
 
 //@fn rel=crates/isograph_lang_parser/src/peekable_lexer.rs name=with_embedded_location_result within="impl<'source> PeekableLexer<'source>" vis=pub ret=r serves=C07
@@ -406,7 +425,9 @@ impl<'source> PeekableLexer<'source> {
             r is Ok ==> final(self).progressed(old(self))
                 && r->Ok_0.location.span.start == old(self).current.span.start
                 && r->Ok_0.location.span.start <= r->Ok_0.location.span.end
-                && r->Ok_0.location.span.end <= byte_len(old(self).source), //@O C07.O-4_located_span_well_formed_and_inside_literal
+                && r->Ok_0.location.span.end <= byte_len(old(self).source), //@O C07.O-4_located_span_well_formed_and_inside_literal,
+            // an error is the callback's error, unchanged
+            r is Err ==> exists|x: &mut Self, y: Result<T, E>| x.inv() && x.source == old(self).source && #[trigger] do_stuff.ensures((x,), y) && y is Err && y->Err_0 == r->Err_0,
 //@end
 
 //@fn rel=crates/isograph_lang_parser/src/peekable_lexer.rs name=with_embedded_location_optional_result within="impl<'source> PeekableLexer<'source>" vis=pub ret=r serves=C07
@@ -433,6 +454,8 @@ impl<'source> PeekableLexer<'source> {
                 && r->Ok_0->Some_0.location.span.start <= r->Ok_0->Some_0.location.span.end
                 && r->Ok_0->Some_0.location.span.end <= byte_len(old(self).source), //@O C07.O-4_optional_located_span_well_formed_and_inside_literal
             r is Ok && r->Ok_0 is None ==> final(self).current.span.start == old(self).current.span.start,
+            // an error is the callback's error, unchanged
+            r is Err ==> exists|x: &mut Self, y: Result<Option<T>, E>| x.inv() && x.source == old(self).source && #[trigger] do_stuff.ensures((x,), y) && y is Err && y->Err_0 == r->Err_0,
 //@end
 
     /// `self.semantic_tokens.clone()` (derive(Clone) of the element type has no Verus spec)
@@ -461,15 +484,20 @@ impl<'source> PeekableLexer<'source> {
             requires old(tokens).inv(),
             ensures final(tokens).inv(), final(tokens).same_literal(old(tokens)), final(tokens).monotone(old(tokens)),
                 cr is Ok ==> final(tokens).progressed(old(tokens)),
+                cr is Err ==> diag_ok(cr->Err_0, byte_len(old(tokens).source)),
 //@closure 2 params="x: WithEmbeddedLocation<()>" ret="m: EmbeddedLocation"
             ensures m == x.location,
 //@end
 
 // ---- stand-ins for the parser's payload (opaque: the cursor contracts do not depend on them) ----
-impl From<EmbeddedLocation> for Location { #[verifier::external_body] fn from(e: EmbeddedLocation) -> Self { Location { embedded: e } } }
 impl Location {
-    #[verifier::external_body]
-    pub fn new(text_source: TextSource, span: Span) -> Location { unimplemented!() }
+    /// `impl From<EmbeddedLocation> for Location` (real body: Location::Embedded(value)); an
+    /// inherent function so that it can carry its postcondition
+    pub fn from(e: EmbeddedLocation) -> (r: Location) ensures r == Location::Embedded(e) { Location::Embedded(e) }
+//@fn rel=crates/common_lang_types/src/location.rs name=new within="impl Location" vis=pub ret=r
+//@contract
+        ensures r == Location::Embedded(EmbeddedLocation { text_source, span }),
+//@end
 }
 /// intern::string_key::StringKey and `str.intern()` (opaque: the cursor does not depend on them)
 #[derive(Clone, Copy)]
@@ -507,9 +535,12 @@ pub struct ScalarSelectionDirectiveSet { p: core::marker::PhantomData<u8> }
 #[verifier::external_body]
 pub struct ObjectSelectionDirectiveSet { p: core::marker::PhantomData<u8> }
 #[verifier::external_body]
-pub fn from_isograph_field_directives<T>(directives: &WithEmbeddedLocation<Vec<WithEmbeddedLocation<IsographFieldDirective>>>) -> Result<T, Diagnostic> { unimplemented!() }
+pub fn from_isograph_field_directives<T>(directives: &WithEmbeddedLocation<Vec<WithEmbeddedLocation<IsographFieldDirective>>>) -> (r: Result<T, Diagnostic>)
+    // real body: the deserialization error is reported at the location of the directives
+    ensures r is Err ==> r->Err_0.loc() == Some(Location::Embedded(directives.location))
+{ unimplemented!() }
 #[verifier::external_body]
-pub fn fragment_spread_diagnostic(location: EmbeddedLocation) -> Diagnostic { unimplemented!() }
+pub fn fragment_spread_diagnostic(location: EmbeddedLocation) -> (r: Diagnostic) ensures r.loc() == Some(Location::Embedded(location)) { unimplemented!() }
 //@item rel=crates/isograph_lang_types/src/base_types.rs kind=enum name=SelectionType prefix="pub"
 //@item rel=crates/isograph_lang_types/src/declarations/selection_declaration.rs kind=struct name=ScalarSelection prefix="pub"
 //@item rel=crates/isograph_lang_types/src/declarations/selection_declaration.rs kind=struct name=ObjectSelection prefix="pub"
@@ -531,6 +562,7 @@ pub open spec fn cursor_fn_ok<'a, T, F: Fn(&mut PeekableLexer<'a>) -> Diagnostic
     &&& forall|x: &mut PeekableLexer<'a>| x.inv() ==> #[trigger] f.requires((x,))
     &&& forall|x: &mut PeekableLexer<'a>, y: DiagnosticResult<T>| x.inv() && #[trigger] f.ensures((x,), y) ==>
             final(x).inv() && final(x).same_literal(&*x) && final(x).monotone(&*x)
+            && (y is Err ==> diag_ok(y->Err_0, byte_len(x.source)))
 }
 
 //@fn rel=crates/isograph_lang_parser/src/parse_iso_literal.rs name=parse_comma vis=pub ret=r serves=C07
@@ -539,6 +571,7 @@ pub open spec fn cursor_fn_ok<'a, T, F: Fn(&mut PeekableLexer<'a>) -> Diagnostic
     ensures final(tokens).inv(), final(tokens).same_literal(old(tokens)), final(tokens).monotone(old(tokens)),
         r is Ok ==> final(tokens).progressed(old(tokens)),
         r is Err ==> final(tokens).not_moved(old(tokens)),
+        r is Err ==> diag_ok(r->Err_0, byte_len(old(tokens).source)), //@O C07.O-7_diagnostic_location_inside_literal
 //@end
 
 //@fn rel=crates/isograph_lang_parser/src/parse_iso_literal.rs name=parse_line_break vis=pub ret=r serves=C07
@@ -548,14 +581,16 @@ pub open spec fn cursor_fn_ok<'a, T, F: Fn(&mut PeekableLexer<'a>) -> Diagnostic
     requires old(tokens).inv(),
     // the white space between the last parsed token and the current one is a well-formed
     // range of the literal (precondition of `source`)
-    ensures *final(tokens) == *old(tokens), //@O C07.O-5_parse_line_break_reads_a_well_formed_range_and_moves_nothing
+    ensures *final(tokens) == *old(tokens), //@O C07.O-5_parse_line_break_reads_a_well_formed_range_and_moves_nothing,
+        r is Err ==> diag_ok(r->Err_0, byte_len(old(tokens).source)), //@O C07.O-7_diagnostic_location_inside_literal
 //@end
 
 //@fn rel=crates/isograph_lang_parser/src/parse_iso_literal.rs name=parse_comma_or_line_break vis=pub ret=r serves=C07
 //@rw R15 R4
 //@contract
     requires old(tokens).inv(),
-    ensures final(tokens).inv(), final(tokens).same_literal(old(tokens)), final(tokens).monotone(old(tokens)), //@O C07.O-5_parse_comma_or_line_break_preserves_cursor_invariant
+    ensures final(tokens).inv(), final(tokens).same_literal(old(tokens)), final(tokens).monotone(old(tokens)), //@O C07.O-5_parse_comma_or_line_break_preserves_cursor_invariant,
+        r is Err ==> diag_ok(r->Err_0, byte_len(old(tokens).source)), //@O C07.O-7_diagnostic_location_inside_literal
 //@end
 
 //@fn rel=crates/isograph_lang_parser/src/parse_iso_literal.rs name=parse_delimited_list vis=pub ret=r serves=C07 prefix="#[verifier::exec_allows_no_decreases_clause]"
@@ -570,7 +605,8 @@ pub open spec fn cursor_fn_ok<'a, T, F: Fn(&mut PeekableLexer<'a>) -> Diagnostic
         final(tokens).inv(), //@O C07.O-5_parse_delimited_list_preserves_cursor_invariant
         final(tokens).same_literal(old(tokens)), final(tokens).monotone(old(tokens)),
         // the list is located at its closing token, which was consumed
-        r is Ok ==> final(tokens).progressed(old(tokens)) && located_from(r->Ok_0, old(tokens)), //@O C07.O-5_delimited_list_located_at_its_closing_token
+        r is Ok ==> final(tokens).progressed(old(tokens)) && located_from(r->Ok_0, old(tokens)), //@O C07.O-5_delimited_list_located_at_its_closing_token,
+        r is Err ==> diag_ok(r->Err_0, byte_len(old(tokens).source)), //@O C07.O-7_diagnostic_location_inside_literal
 //@closure 1 params="_k: IsographLangTokenKind" ret="v: Vec<TResult>"
 //@closure 2 params="_k: IsographLangTokenKind" ret="v: Vec<TResult>"
 //@closure 3 params="_k: IsographLangTokenKind" ret="v: Vec<TResult>"
@@ -591,7 +627,8 @@ pub open spec fn cursor_fn_ok<'a, T, F: Fn(&mut PeekableLexer<'a>) -> Diagnostic
         // a selection set is reported only if its opening brace was consumed; otherwise the
         // cursor has not moved
         r is Ok && r->Ok_0 is Some ==> final(tokens).progressed(old(tokens)), //@O C07.O-5_selection_set_present_only_if_brace_consumed
-        r is Ok && r->Ok_0 is None ==> final(tokens).not_moved(old(tokens)), //@O C07.O-5_absent_selection_set_leaves_cursor_in_place
+        r is Ok && r->Ok_0 is None ==> final(tokens).not_moved(old(tokens)), //@O C07.O-5_absent_selection_set_leaves_cursor_in_place,
+        r is Err ==> diag_ok(r->Err_0, byte_len(old(tokens).source)), //@O C07.O-7_diagnostic_location_inside_literal
 //@loop 1
         invariant
             tokens.inv(), tokens.same_literal(old(tokens)), tokens.monotone(old(tokens)), tokens.progressed(old(tokens)),
@@ -606,11 +643,13 @@ pub open spec fn cursor_fn_ok<'a, T, F: Fn(&mut PeekableLexer<'a>) -> Diagnostic
         final(tokens).same_literal(old(tokens)), final(tokens).monotone(old(tokens)),
         r is Ok && r->Ok_0 is Some ==> final(tokens).progressed(old(tokens)) && located_from(r->Ok_0->Some_0, old(tokens)), //@O C07.O-5_selection_set_span_well_formed
         r is Ok && r->Ok_0 is None ==> final(tokens).current.span.start == old(tokens).current.span.start,
+        r is Err ==> diag_ok(r->Err_0, byte_len(old(tokens).source)), //@O C07.O-7_diagnostic_location_inside_literal
 //@closure 1 params="tokens: &mut PeekableLexer<'_>" ret="cr: Result<Option<SelectionSet>, Diagnostic>"
             requires old(tokens).inv(),
             ensures final(tokens).inv(), final(tokens).same_literal(old(tokens)), final(tokens).monotone(old(tokens)),
                 cr is Ok && cr->Ok_0 is Some ==> final(tokens).progressed(old(tokens)),
                 cr is Ok && cr->Ok_0 is None ==> final(tokens).current.span.start == old(tokens).current.span.start,
+                cr is Err ==> diag_ok(cr->Err_0, byte_len(old(tokens).source)),
 //@closure 2 params="selections: Vec<WithEmbeddedLocation<Selection>>" ret="ss: SelectionSet"
 //@end
 
@@ -623,6 +662,7 @@ pub open spec fn cursor_fn_ok<'a, T, F: Fn(&mut PeekableLexer<'a>) -> Diagnostic
         final(tokens).inv(), //@O C07.O-5_parse_alias_and_field_name_preserves_cursor_invariant
         final(tokens).same_literal(old(tokens)), final(tokens).monotone(old(tokens)),
         r is Ok ==> final(tokens).progressed(old(tokens)),
+        r is Err ==> diag_ok(r->Err_0, byte_len(old(tokens).source)), //@O C07.O-7_diagnostic_location_inside_literal
 //@end
 
 //@item rel=crates/graphql_lang_types/src/value.rs kind=struct name=NameValuePairInner prefix="pub"
@@ -639,7 +679,8 @@ pub type NonConstantValue = NonConstantValueInner<EmbeddedLocation>;
 pub fn parse_non_constant_value(tokens: &mut PeekableLexer<'_>) -> (r: DiagnosticResult<WithEmbeddedLocation<NonConstantValue>>)
     requires old(tokens).inv(),
     ensures final(tokens).inv(), final(tokens).same_literal(old(tokens)), final(tokens).monotone(old(tokens)),
-        r is Ok ==> final(tokens).progressed(old(tokens)),
+        r is Ok ==> final(tokens).progressed(old(tokens)) && located_from(r->Ok_0, old(tokens)),
+        r is Err ==> diag_ok(r->Err_0, byte_len(old(tokens).source)),
 { unimplemented!() }
 
 //@fn rel=crates/isograph_lang_parser/src/parse_iso_literal.rs name=parse_argument vis=pub ret=r serves=C07
@@ -649,11 +690,13 @@ pub fn parse_non_constant_value(tokens: &mut PeekableLexer<'_>) -> (r: Diagnosti
     ensures
         final(tokens).inv(), //@O C07.O-5_parse_argument_preserves_cursor_invariant
         final(tokens).same_literal(old(tokens)), final(tokens).monotone(old(tokens)),
-        r is Ok ==> final(tokens).progressed(old(tokens)) && located_from(r->Ok_0, old(tokens)), //@O C07.O-5_argument_span_well_formed
+        r is Ok ==> final(tokens).progressed(old(tokens)) && located_from(r->Ok_0, old(tokens)), //@O C07.O-5_argument_span_well_formed,
+        r is Err ==> diag_ok(r->Err_0, byte_len(old(tokens).source)), //@O C07.O-7_diagnostic_location_inside_literal
 //@closure 1 params="tokens: &mut PeekableLexer<'_>" ret="cr: Result<SelectionFieldArgument, Diagnostic>"
             requires old(tokens).inv(),
             ensures final(tokens).inv(), final(tokens).same_literal(old(tokens)), final(tokens).monotone(old(tokens)),
                 cr is Ok ==> final(tokens).progressed(old(tokens)),
+                cr is Err ==> diag_ok(cr->Err_0, byte_len(old(tokens).source)),
 //@end
 
 //@fn rel=crates/isograph_lang_parser/src/parse_iso_literal.rs name=parse_optional_arguments vis=pub ret=r serves=C07
@@ -664,6 +707,7 @@ pub fn parse_non_constant_value(tokens: &mut PeekableLexer<'_>) -> (r: Diagnosti
     ensures
         final(tokens).inv(), //@O C07.O-5_parse_optional_arguments_preserves_cursor_invariant
         final(tokens).same_literal(old(tokens)), final(tokens).monotone(old(tokens)),
+        r is Err ==> diag_ok(r->Err_0, byte_len(old(tokens).source)), //@O C07.O-7_diagnostic_location_inside_literal
 //@end
 
 //@fn rel=crates/isograph_lang_parser/src/parse_iso_literal.rs name=parse_object_entry vis=pub ret=r serves=C07
@@ -675,6 +719,7 @@ pub fn parse_non_constant_value(tokens: &mut PeekableLexer<'_>) -> (r: Diagnosti
         final(tokens).inv(), //@O C07.O-5_parse_object_entry_preserves_cursor_invariant
         final(tokens).same_literal(old(tokens)), final(tokens).monotone(old(tokens)),
         r is Ok ==> final(tokens).progressed(old(tokens)),
+        r is Err ==> diag_ok(r->Err_0, byte_len(old(tokens).source)), //@O C07.O-7_diagnostic_location_inside_literal
 //@end
 
 //@fn rel=crates/isograph_lang_parser/src/parse_iso_literal.rs name=parse_directives vis=pub ret=r serves=C07 prefix="#[verifier::exec_allows_no_decreases_clause]"
@@ -686,12 +731,14 @@ pub fn parse_non_constant_value(tokens: &mut PeekableLexer<'_>) -> (r: Diagnosti
         final(tokens).inv(), //@O C07.O-5_parse_directives_preserves_cursor_invariant
         final(tokens).same_literal(old(tokens)), final(tokens).monotone(old(tokens)),
         r is Ok ==> r->Ok_0.location.span.start <= r->Ok_0.location.span.end
-            && r->Ok_0.location.span.end <= byte_len(old(tokens).source), //@O C07.O-5_directives_span_well_formed
+            && r->Ok_0.location.span.end <= byte_len(old(tokens).source), //@O C07.O-5_directives_span_well_formed,
+        r is Err ==> diag_ok(r->Err_0, byte_len(old(tokens).source)), //@O C07.O-7_diagnostic_location_inside_literal
 //@closure 1 params="tokens: &mut PeekableLexer<'_>" ret="cr: Result<Option<Vec<WithEmbeddedLocation<IsographFieldDirective>>>, Diagnostic>"
             requires old(tokens).inv(),
             ensures final(tokens).inv(), final(tokens).same_literal(old(tokens)), final(tokens).monotone(old(tokens)),
                 cr is Ok && cr->Ok_0 is Some ==> final(tokens).progressed(old(tokens)),
                 cr is Ok && cr->Ok_0 is None ==> final(tokens).current.span.start == old(tokens).current.span.start,
+                cr is Err ==> diag_ok(cr->Err_0, byte_len(old(tokens).source)),
 //@loop 1
                 invariant
                     tokens.inv(), tokens.same_literal(old(tokens)), tokens.monotone(old(tokens)),
@@ -708,11 +755,13 @@ pub fn parse_non_constant_value(tokens: &mut PeekableLexer<'_>) -> (r: Diagnosti
     ensures
         final(tokens).inv(), //@O C07.O-5_parse_selection_preserves_cursor_invariant
         final(tokens).same_literal(old(tokens)), final(tokens).monotone(old(tokens)),
-        r is Ok ==> final(tokens).progressed(old(tokens)) && located_from(r->Ok_0, old(tokens)), //@O C07.O-5_selection_span_well_formed
+        r is Ok ==> final(tokens).progressed(old(tokens)) && located_from(r->Ok_0, old(tokens)), //@O C07.O-5_selection_span_well_formed,
+        r is Err ==> diag_ok(r->Err_0, byte_len(old(tokens).source)), //@O C07.O-7_diagnostic_location_inside_literal
 //@closure 1 params="tokens: &mut PeekableLexer<'_>" ret="cr: Result<Selection, Diagnostic>"
             requires old(tokens).inv(),
             ensures final(tokens).inv(), final(tokens).same_literal(old(tokens)), final(tokens).monotone(old(tokens)),
                 cr is Ok ==> final(tokens).progressed(old(tokens)),
+                cr is Err ==> diag_ok(cr->Err_0, byte_len(old(tokens).source)),
 //@end
 
 // ---- variable definitions -------------------------------------------------------------
@@ -747,6 +796,7 @@ pub fn parse_type_annotation(tokens: &mut PeekableLexer<'_>) -> (r: DiagnosticRe
     requires old(tokens).inv(),
     ensures final(tokens).inv(), final(tokens).same_literal(old(tokens)), final(tokens).monotone(old(tokens)),
         r is Ok ==> final(tokens).progressed(old(tokens)) && located_from(r->Ok_0, old(tokens)),
+        r is Err ==> diag_ok(r->Err_0, byte_len(old(tokens).source)),
 { unimplemented!() }
 
 //@fn rel=crates/isograph_lang_parser/src/parse_iso_literal.rs name=parse_optional_default_value vis=pub ret=r serves=C07
@@ -757,6 +807,7 @@ pub fn parse_type_annotation(tokens: &mut PeekableLexer<'_>) -> (r: DiagnosticRe
     ensures
         final(tokens).inv(), //@O C07.O-5_parse_optional_default_value_preserves_cursor_invariant
         final(tokens).same_literal(old(tokens)), final(tokens).monotone(old(tokens)),
+        r is Err ==> diag_ok(r->Err_0, byte_len(old(tokens).source)), //@O C07.O-7_diagnostic_location_inside_literal
 //@end
 
 //@fn rel=crates/isograph_lang_parser/src/parse_iso_literal.rs name=parse_variable_definition vis=pub ret=r serves=C07
@@ -766,11 +817,13 @@ pub fn parse_type_annotation(tokens: &mut PeekableLexer<'_>) -> (r: DiagnosticRe
     ensures
         final(tokens).inv(), //@O C07.O-5_parse_variable_definition_preserves_cursor_invariant
         final(tokens).same_literal(old(tokens)), final(tokens).monotone(old(tokens)),
-        r is Ok ==> final(tokens).progressed(old(tokens)) && located_from(r->Ok_0, old(tokens)), //@O C07.O-5_variable_definition_span_well_formed
+        r is Ok ==> final(tokens).progressed(old(tokens)) && located_from(r->Ok_0, old(tokens)), //@O C07.O-5_variable_definition_span_well_formed,
+        r is Err ==> diag_ok(r->Err_0, byte_len(old(tokens).source)), //@O C07.O-7_diagnostic_location_inside_literal
 //@closure 1 params="tokens: &mut PeekableLexer<'_>" ret="cr: Result<VariableDeclaration, Diagnostic>"
             requires old(tokens).inv(),
             ensures final(tokens).inv(), final(tokens).same_literal(old(tokens)), final(tokens).monotone(old(tokens)),
                 cr is Ok ==> final(tokens).progressed(old(tokens)),
+                cr is Err ==> diag_ok(cr->Err_0, byte_len(old(tokens).source)),
 //@end
 
 //@fn rel=crates/isograph_lang_parser/src/parse_iso_literal.rs name=parse_variable_definitions vis=pub ret=r serves=C07
@@ -781,9 +834,11 @@ pub fn parse_type_annotation(tokens: &mut PeekableLexer<'_>) -> (r: DiagnosticRe
     ensures
         final(tokens).inv(), //@O C07.O-5_parse_variable_definitions_preserves_cursor_invariant
         final(tokens).same_literal(old(tokens)), final(tokens).monotone(old(tokens)),
+        r is Err ==> diag_ok(r->Err_0, byte_len(old(tokens).source)), //@O C07.O-7_diagnostic_location_inside_literal
 //@closure 1 params="item: &mut PeekableLexer<'_>" ret="cr: DiagnosticResult<WithEmbeddedLocation<VariableDeclaration>>"
             requires old(item).inv(),
             ensures final(item).inv(), final(item).same_literal(old(item)), final(item).monotone(old(item)),
+                cr is Err ==> diag_ok(cr->Err_0, byte_len(old(item).source)),
 //@end
 
 //@fn rel=crates/isograph_lang_parser/src/parse_iso_literal.rs name=parse_client_pointer_target_type vis=pub ret=r serves=C07
@@ -795,6 +850,7 @@ pub fn parse_type_annotation(tokens: &mut PeekableLexer<'_>) -> (r: DiagnosticRe
         final(tokens).inv(), //@O C07.O-5_parse_client_pointer_target_type_preserves_cursor_invariant
         final(tokens).same_literal(old(tokens)), final(tokens).monotone(old(tokens)),
         r is Ok ==> final(tokens).progressed(old(tokens)),
+        r is Err ==> diag_ok(r->Err_0, byte_len(old(tokens).source)), //@O C07.O-7_diagnostic_location_inside_literal
 //@end
 
 // ---- the three declarations and parse_iso_literal ---------------------------------------
@@ -815,11 +871,11 @@ impl From<StringKey> for IsoLiteralText { #[verifier::external_body] fn from(k: 
 #[verifier::external_body]
 pub struct Description { p: core::marker::PhantomData<u8> }
 #[verifier::external_body]
-pub fn leftover_tokens_diagnostic(location: Location) -> Diagnostic { unimplemented!() }
+pub fn leftover_tokens_diagnostic(location: Location) -> (r: Diagnostic) ensures r.loc() == Some(location) { unimplemented!() }
 #[verifier::external_body]
-pub fn expected_selection_set_diagnostic(location: Location) -> Diagnostic { unimplemented!() }
+pub fn expected_selection_set_diagnostic(location: Location) -> (r: Diagnostic) ensures r.loc() == Some(location) { unimplemented!() }
 #[verifier::external_body]
-pub fn expected_literal_to_be_exported_diagnostic(literal_type: &str, suggested_const_export_name: SelectableName, location: Location) -> Diagnostic { unimplemented!() }
+pub fn expected_literal_to_be_exported_diagnostic(literal_type: &str, suggested_const_export_name: SelectableName, location: Location) -> (r: Diagnostic) ensures r.loc() == Some(location) { unimplemented!() }
 /// description.rs: `parse_single_line_description(tokens).or_else(|| parse_multiline_description(tokens))`
 /// (a closure capturing `tokens` mutably, string slicing): contract assumed
 #[verifier::external_body]
@@ -840,14 +896,17 @@ pub fn parse_optional_description(tokens: &mut PeekableLexer<'_>) -> (r: Option<
     requires old(tokens).inv(),
     ensures
         final(tokens).inv(), //@O C07.O-5_parse_entrypoint_declaration_preserves_cursor_invariant
-        r is Ok ==> located_from(r->Ok_0, old(tokens)), //@O C07.O-5_entrypoint_declaration_span_well_formed
+        r is Ok ==> located_from(r->Ok_0, old(tokens)), //@O C07.O-5_entrypoint_declaration_span_well_formed,
+        r is Err ==> diag_ok(r->Err_0, byte_len(old(tokens).source)), //@O C07.O-7_diagnostic_location_inside_literal
 //@closure 1 params="tokens: &mut PeekableLexer<'_>" ret="cr: Result<EntrypointDeclaration, Diagnostic>"
             requires old(tokens).inv(),
             ensures final(tokens).inv(), final(tokens).same_literal(old(tokens)), final(tokens).monotone(old(tokens)),
                 cr is Ok ==> final(tokens).progressed(old(tokens)),
+                cr is Err ==> diag_ok(cr->Err_0, byte_len(old(tokens).source)),
 //@end
 
 //@fn rel=crates/isograph_lang_parser/src/parse_iso_literal.rs name=parse_client_field_declaration_inner vis=pub ret=r serves=C07
+//@sub "From::from\(client_field_name\.location\)" => "Location::from(client_field_name.location)" n=1
 //@sub "\.map\(EntityNameWrapper\)" => ".map(|v| EntityNameWrapper(v))" n=*
 //@rw R17 R16 R4
 //@sub "const_export_name\.intern\(\)" => "intern_str(const_export_name)" n=1
@@ -856,11 +915,17 @@ pub fn parse_optional_description(tokens: &mut PeekableLexer<'_>) -> (r: Option<
     ensures
         final(tokens).inv(), //@O C07.O-5_parse_client_field_declaration_preserves_cursor_invariant
         final(tokens).same_literal(old(tokens)), final(tokens).monotone(old(tokens)),
-        r is Ok ==> located_from(r->Ok_0, old(tokens)), //@O C07.O-5_client_field_declaration_span_well_formed
+        r is Ok ==> located_from(r->Ok_0, old(tokens)), //@O C07.O-5_client_field_declaration_span_well_formed,
+        r is Err ==> diag_ok(r->Err_0, byte_len(old(tokens).source)), //@O C07.O-7_diagnostic_location_inside_literal
 //@closure 1 params="tokens: &mut PeekableLexer<'_>" ret="cr: Result<ClientFieldDeclaration, Diagnostic>"
             requires old(tokens).inv(),
             ensures final(tokens).inv(), final(tokens).same_literal(old(tokens)), final(tokens).monotone(old(tokens)),
                 cr is Ok ==> final(tokens).progressed(old(tokens)),
+                cr is Err ==> diag_ok(cr->Err_0, byte_len(old(tokens).source)),
+//@closure 4 params="" ret="d: Diagnostic"
+            ensures d.loc() == Some(Location::Embedded(EmbeddedLocation { text_source: tokens.text_source, span: Span { start: 0, end: 0 } })),
+//@closure 5 params="" ret="d: Diagnostic"
+            ensures d.loc() == Some(Location::Embedded(client_field_name.location)),
 //@end
 
 //@fn rel=crates/isograph_lang_parser/src/parse_iso_literal.rs name=parse_iso_client_field_declaration vis=pub ret=r serves=C07
@@ -870,9 +935,11 @@ pub fn parse_optional_description(tokens: &mut PeekableLexer<'_>) -> (r: Option<
     ensures
         final(tokens).inv(), //@O C07.O-5_parse_iso_client_field_declaration_preserves_cursor_invariant
         r is Ok ==> located_from(r->Ok_0, old(tokens)),
+        r is Err ==> diag_ok(r->Err_0, byte_len(old(tokens).source)), //@O C07.O-7_diagnostic_location_inside_literal
 //@end
 
 //@fn rel=crates/isograph_lang_parser/src/parse_iso_literal.rs name=parse_client_pointer_declaration_inner vis=pub ret=r serves=C07
+//@sub "From::from\(client_pointer_name\.location\)" => "Location::from(client_pointer_name.location)" n=1
 //@sub "\.map\(EntityNameWrapper\)" => ".map(|v| EntityNameWrapper(v))" n=*
 //@rw R17 R16 R4
 //@sub "const_export_name\.intern\(\)" => "intern_str(const_export_name)" n=1
@@ -881,11 +948,17 @@ pub fn parse_optional_description(tokens: &mut PeekableLexer<'_>) -> (r: Option<
     ensures
         final(tokens).inv(), //@O C07.O-5_parse_client_pointer_declaration_preserves_cursor_invariant
         final(tokens).same_literal(old(tokens)), final(tokens).monotone(old(tokens)),
-        r is Ok ==> located_from(r->Ok_0, old(tokens)), //@O C07.O-5_client_pointer_declaration_span_well_formed
+        r is Ok ==> located_from(r->Ok_0, old(tokens)), //@O C07.O-5_client_pointer_declaration_span_well_formed,
+        r is Err ==> diag_ok(r->Err_0, byte_len(old(tokens).source)), //@O C07.O-7_diagnostic_location_inside_literal
 //@closure 1 params="tokens: &mut PeekableLexer<'_>" ret="cr: Result<ClientPointerDeclaration, Diagnostic>"
             requires old(tokens).inv(),
             ensures final(tokens).inv(), final(tokens).same_literal(old(tokens)), final(tokens).monotone(old(tokens)),
                 cr is Ok ==> final(tokens).progressed(old(tokens)),
+                cr is Err ==> diag_ok(cr->Err_0, byte_len(old(tokens).source)),
+//@closure 4 params="" ret="d: Diagnostic"
+            ensures d.loc() == Some(Location::Embedded(EmbeddedLocation { text_source: tokens.text_source, span: Span { start: 0, end: 0 } })),
+//@closure 5 params="" ret="d: Diagnostic"
+            ensures d.loc() == Some(Location::Embedded(client_pointer_name.location)),
 //@end
 
 //@fn rel=crates/isograph_lang_parser/src/parse_iso_literal.rs name=parse_iso_client_pointer_declaration vis=pub ret=r serves=C07
@@ -895,6 +968,7 @@ pub fn parse_optional_description(tokens: &mut PeekableLexer<'_>) -> (r: Option<
     ensures
         final(tokens).inv(), //@O C07.O-5_parse_iso_client_pointer_declaration_preserves_cursor_invariant
         r is Ok ==> located_from(r->Ok_0, old(tokens)),
+        r is Err ==> diag_ok(r->Err_0, byte_len(old(tokens).source)), //@O C07.O-7_diagnostic_location_inside_literal
 //@end
 
 //@item rel=crates/isograph_lang_parser/src/parse_iso_literal.rs kind=enum name=IsoLiteralExtractionResult prefix="pub"
@@ -906,6 +980,7 @@ pub fn parse_optional_description(tokens: &mut PeekableLexer<'_>) -> (r: Option<
 //@contract
     // iso literals are far below 4 GiB (precondition of the u32 spans)
     requires string_byte_len(&iso_literal_text) <= u32::MAX,
+        ensures r is Err ==> diag_ok(r->Err_0, string_byte_len(&iso_literal_text)), //@O C07.O-7_diagnostic_location_inside_literal
 //@end
 
 // ---- alternatives of parse_non_constant_value / parse_type_annotation ----------------------
@@ -936,6 +1011,7 @@ pub fn non_constant_value_alt_variable(tokens: &mut PeekableLexer<'_>) -> (r: Re
     requires old(tokens).inv(),
     ensures final(tokens).inv(), final(tokens).same_literal(old(tokens)), final(tokens).monotone(old(tokens)), //@O C07.O-6_value_alternative_variable_preserves_cursor_invariant
         r is Ok ==> final(tokens).progressed(old(tokens)),
+        r is Err ==> diag_ok(r->Err_0, byte_len(old(tokens).source)), //@O C07.O-7_diagnostic_location_inside_literal
 {
 //@expr rel=crates/isograph_lang_parser/src/parse_iso_literal.rs fn=parse_non_constant_value start="to_control_flow::<_, Diagnostic>(|| {" skip="to_control_flow::<_, Diagnostic>(||" nth=0 block=non_constant_value_alt_variable serves=C07 sub="name\.map\(NonConstantValue::Variable\)=>name.map(|v| NonConstantValue::Variable(v))" rw=R4
 }
@@ -947,6 +1023,7 @@ pub fn non_constant_value_alt_string(tokens: &mut PeekableLexer<'_>) -> (r: Resu
     requires old(tokens).inv(),
     ensures final(tokens).inv(), final(tokens).same_literal(old(tokens)), final(tokens).monotone(old(tokens)), //@O C07.O-6_value_alternative_string_preserves_cursor_invariant
         r is Ok ==> final(tokens).progressed(old(tokens)),
+        r is Err ==> diag_ok(r->Err_0, byte_len(old(tokens).source)), //@O C07.O-7_diagnostic_location_inside_literal
 {
 //@expr rel=crates/isograph_lang_parser/src/parse_iso_literal.rs fn=parse_non_constant_value start="to_control_flow::<_, Diagnostic>(|| {" skip="to_control_flow::<_, Diagnostic>(||" nth=1 block=non_constant_value_alt_string serves=C07 sub="source_with_quotes\[1\.\.source_with_quotes\.len\(\) - 1\]\s*\.intern\(\)\s*\.into\(\)=>From::from(intern_str(str_slice(source_with_quotes, 1, str_len(source_with_quotes) - 1)))" sub2="\|parsed_str\| \{=>|parsed_str: WithEmbeddedLocation<&str>| -> (o: WithEmbeddedLocation<StringLiteralValue>) requires byte_len(parsed_str.item) >= 2 {" sub3="\|source_with_quotes\| \{=>|source_with_quotes: &str| -> (v: StringLiteralValue) requires byte_len(source_with_quotes) >= 2 {" sub4="string\.map\(NonConstantValue::String\)=>string.map(|v| NonConstantValue::String(v))" rw=R4
 }
@@ -957,8 +1034,9 @@ pub fn non_constant_value_alt_integer(tokens: &mut PeekableLexer<'_>) -> (r: Res
     requires old(tokens).inv(),
     ensures final(tokens).inv(), final(tokens).same_literal(old(tokens)), final(tokens).monotone(old(tokens)), //@O C07.O-6_value_alternative_integer_preserves_cursor_invariant
         r is Ok ==> final(tokens).progressed(old(tokens)) && located_from(r->Ok_0, old(tokens)),
+        r is Err ==> diag_ok(r->Err_0, byte_len(old(tokens).source)), //@O C07.O-7_diagnostic_location_inside_literal
 {
-//@expr rel=crates/isograph_lang_parser/src/parse_iso_literal.rs fn=parse_non_constant_value start="to_control_flow::<_, Diagnostic>(|| {" skip="to_control_flow::<_, Diagnostic>(||" nth=2 block=non_constant_value_alt_integer serves=C07 sub="number\.parse\(\)=>parse_i64(number)" rw=R15,R4
+//@expr rel=crates/isograph_lang_parser/src/parse_iso_literal.rs fn=parse_non_constant_value start="to_control_flow::<_, Diagnostic>(|| {" skip="to_control_flow::<_, Diagnostic>(||" nth=2 block=non_constant_value_alt_integer serves=C07 sub="number\.parse\(\)=>parse_i64(number)" rw=R15,R4 closure1="number: &str ;; o: Result<NonConstantValue, Diagnostic> ;; ensures o is Err ==> o->Err_0.loc() == Some(Location::Embedded(embedded_location))"
 }
 
 /// alternative 5 of parse_non_constant_value: `null`, `true`, `false`
@@ -966,8 +1044,9 @@ pub fn non_constant_value_alt_bool_or_null(tokens: &mut PeekableLexer<'_>) -> (r
     requires old(tokens).inv(),
     ensures final(tokens).inv(), final(tokens).same_literal(old(tokens)), final(tokens).monotone(old(tokens)), //@O C07.O-6_value_alternative_bool_or_null_preserves_cursor_invariant
         r is Ok ==> final(tokens).progressed(old(tokens)) && located_from(r->Ok_0, old(tokens)),
+        r is Err ==> diag_ok(r->Err_0, byte_len(old(tokens).source)), //@O C07.O-7_diagnostic_location_inside_literal
 {
-//@expr rel=crates/isograph_lang_parser/src/parse_iso_literal.rs fn=parse_non_constant_value start="to_control_flow(|| {" skip="to_control_flow(||" nth=0 block=non_constant_value_alt_bool_or_null serves=C07 sub="bool\.parse::<bool>\(\)=>parse_bool(bool)" rw=R15,R4
+//@expr rel=crates/isograph_lang_parser/src/parse_iso_literal.rs fn=parse_non_constant_value start="to_control_flow(|| {" skip="to_control_flow(||" nth=0 block=non_constant_value_alt_bool_or_null serves=C07 sub="bool\.parse::<bool>\(\)=>parse_bool(bool)" rw=R15,R4 closure1="bool_or_null: &str ;; o: Result<NonConstantValue, Diagnostic> ;; ensures o is Err ==> o->Err_0.loc() == Some(Location::Embedded(embedded_location))"
 }
 
 /// alternative 4 of parse_non_constant_value: `{ key: value, .. }` — its span joins the
@@ -977,6 +1056,7 @@ pub fn non_constant_value_alt_object(tokens: &mut PeekableLexer<'_>) -> (r: Resu
     requires old(tokens).inv(),
     ensures final(tokens).inv(), final(tokens).same_literal(old(tokens)), final(tokens).monotone(old(tokens)), //@O C07.O-6_value_alternative_object_preserves_cursor_invariant
         r is Ok ==> final(tokens).progressed(old(tokens)) && located_from(r->Ok_0, old(tokens)), //@O C07.O-6_object_literal_span_well_formed
+        r is Err ==> diag_ok(r->Err_0, byte_len(old(tokens).source)), //@O C07.O-7_diagnostic_location_inside_literal
 {
 //@expr rel=crates/isograph_lang_parser/src/parse_iso_literal.rs fn=parse_non_constant_value start="to_control_flow::<_, Diagnostic>(|| {" skip="to_control_flow::<_, Diagnostic>(||" nth=3 block=non_constant_value_alt_object serves=C07 rw=R16,R4
 }
@@ -986,6 +1066,7 @@ pub fn type_annotation_alt_named(tokens: &mut PeekableLexer<'_>) -> (r: Result<G
     requires old(tokens).inv(),
     ensures final(tokens).inv(), final(tokens).same_literal(old(tokens)), final(tokens).monotone(old(tokens)), //@O C07.O-6_type_alternative_named_preserves_cursor_invariant
         r is Ok ==> final(tokens).progressed(old(tokens)), //@O C07.O-6_type_alternative_named_consumes_a_token
+        r is Err ==> diag_ok(r->Err_0, byte_len(old(tokens).source)), //@O C07.O-7_diagnostic_location_inside_literal
 {
 //@expr rel=crates/isograph_lang_parser/src/parse_iso_literal.rs fn=parse_type_annotation start="to_control_flow::<_, Diagnostic>(|| {" skip="to_control_flow::<_, Diagnostic>(||" nth=0 block=type_annotation_alt_named serves=C07 rw=R4
 }
@@ -996,6 +1077,7 @@ pub fn type_annotation_alt_list(tokens: &mut PeekableLexer<'_>) -> (r: Result<Gr
     requires old(tokens).inv(),
     ensures final(tokens).inv(), final(tokens).same_literal(old(tokens)), final(tokens).monotone(old(tokens)), //@O C07.O-6_type_alternative_list_preserves_cursor_invariant
         r is Ok ==> final(tokens).progressed(old(tokens)), //@O C07.O-6_type_alternative_list_consumes_a_token
+        r is Err ==> diag_ok(r->Err_0, byte_len(old(tokens).source)), //@O C07.O-7_diagnostic_location_inside_literal
 {
 //@expr rel=crates/isograph_lang_parser/src/parse_iso_literal.rs fn=parse_type_annotation start="to_control_flow::<_, Diagnostic>(|| {" skip="to_control_flow::<_, Diagnostic>(||" nth=1 block=type_annotation_alt_list serves=C07 rw=R4
 }
@@ -1072,10 +1154,9 @@ pub struct ParseBoolError { p: core::marker::PhantomData<u8> }
 pub fn parse_bool(s: &str) -> Result<bool, ParseBoolError> { unimplemented!() }
 #[verifier::external_body]
 pub fn parse_i64(s: &str) -> (r: Result<i64, ParseIntError>) ensures (r is Ok) == fits_i64(s) { unimplemented!() }
-pub struct Location { pub embedded: EmbeddedLocation }
 impl Diagnostic {
     #[verifier::external_body]
-    pub fn new(message: String, location: Option<Location>) -> Diagnostic { unimplemented!() }
+    pub fn new(message: String, location: Option<Location>) -> (r: Diagnostic) ensures r.loc() == location { unimplemented!() }
 }
 #[verifier::external_body]
 pub fn string_of(s: &str) -> String { unimplemented!() }
@@ -1087,7 +1168,7 @@ pub fn integer_literal_value(number: &str, embedded_location: EmbeddedLocation) 
     requires is_integer_literal(number),
     ensures (r is Ok) == fits_i64(number), //@O C07.O-3_integer_literal_is_value_or_diagnostic_never_panic
 {
-//@expr rel=crates/isograph_lang_parser/src/parse_iso_literal.rs fn=parse_non_constant_value start="match number.parse()" block=integer_literal_value serves=C07 sub="number\.parse\(\)=>parse_i64(number)" sub2="\"Integer literal is out of range\"\.to_string\(\)=>string_of(\"Integer literal is out of range\")" sub3="embedded_location\.to::<Location>\(\)=>Location { embedded: embedded_location }" rw=R2,R4
+//@expr rel=crates/isograph_lang_parser/src/parse_iso_literal.rs fn=parse_non_constant_value start="match number.parse()" block=integer_literal_value serves=C07 sub="number\.parse\(\)=>parse_i64(number)" sub2="\"Integer literal is out of range\"\.to_string\(\)=>string_of(\"Integer literal is out of range\")" sub3="embedded_location\.to::<Location>\(\)=>Location::from(embedded_location)" rw=R2,R4
 }
 
 //@endif
